@@ -28,6 +28,12 @@ structure DSt where
   /-- fact: the body re-checks its object under the guard and starts over on a fresh one -/
   recheck : Bool
   fresh : Bool          -- a re-checking call replaced the deleted object by a new one
+  /-- mode setx: fact (gateway Set repeats its existence tests under the record guard), the operation table
+      (call id, kind, argument), parked calls and the next id for synchronous calls -/
+  setUnderGuard : Bool := true
+  sops : List (Nat × String × Int) := []
+  sparked : List (String × Nat) := []
+  snext : Nat := 10
 
 def tidOf (n : String) : Option Nat :=
   match n with | "A" => some 1 | "B" => some 2 | "C" => some 3 | "D" => some 4 | _ => none
@@ -130,12 +136,85 @@ def stepThread (d : DSt) (name : String) (fetch : Bool) : DSt × String :=
         (d1, render d1 name (showState d1 u1) ++ lostFlag d1 ++
           (if stale then "\t#F:C09-delete-increment-stale-object" else ""))
 
+/-! ### mode setx: conditional Sets as calls of `Hv.Lin` (value 0 = the key is absent) -/
+
+def sop (d : DSt) : Nat → Int → Int := fun t v =>
+  match d.sops.find? (fun e => e.1 == t) with
+  | some (_, "seta", a) => if v == 0 then a else v
+  | some (_, "setx", a) => if v == 0 then 0 else a
+  | some (_, "del", _) => 0
+  | _ => v
+
+def scfg (d : DSt) : Hv.Lin.Cfg :=
+  { guard := { resetsIdOnEmpty := d.resets }, releaseInSave := false,
+    shape := if d.setUnderGuard then .guarded else .readBeforeAcquire }
+
+def srun (fuel : Nat) (d : DSt) (t : Nat) : DSt :=
+  match fuel with
+  | 0 => d
+  | fuel + 1 =>
+    if (d.s.th t).pc ≥ 5 then d else
+    match Hv.Lin.step (scfg d) (sop d) d.s (.th t) with
+    | some s' => srun fuel { d with s := s' } t
+    | none => d
+
+def sstatus (d : DSt) (kind : String) (t : Nat) : String :=
+  let loc := (d.s.th t).loc
+  match kind with
+  | "seta" => if loc == 0 then "WROTE" else "UNCHANGED"
+  | "setx" => if loc == 0 then "NOT_FOUND" else "WROTE"
+  | _ => if loc == 0 then "NOT_FOUND" else "DELETED"
+
+/-- the log no longer replays as a sequential history: some response is not what the Spec returns there -/
+def sflag (d : DSt) : String :=
+  if (Hv.Lin.replay (sop d) 0 d.s.log).isNone then "\t#F:C09-read-outside-guard" else ""
+
+def sstep (d : DSt) (ws : List String) : DSt × String :=
+  match ws with
+  | ["go", n] =>
+    match d.sparked.find? (fun e => e.1 == n) with
+    | none => (d, "bad-op")
+    | some (_, t) =>
+      let kind := ((d.sops.find? (fun e => e.1 == t)).map (fun e => e.2.1)).getD ""
+      let d1 := srun 8 { d with sparked := d.sparked.filter (fun e => e.1 != n) } t
+      (d1, s!"{n} done {sstatus d1 kind t}" ++ sflag d1)
+  | [kind, v] =>
+    if kind != "seta" && kind != "setx" then (d, "bad-op") else
+    match v.toInt? with
+    | none => (d, "bad-op")
+    | some a =>
+      let t := d.snext
+      let d1 := srun 8 { d with sops := d.sops ++ [(t, kind, a)], snext := t + 1 } t
+      (d1, s!"{kind} {sstatus d1 kind t}" ++ sflag d1)
+  | ["del"] =>
+    let t := d.snext
+    let d1 := srun 8 { d with sops := d.sops ++ [(t, "del", 0)], snext := t + 1 } t
+    (d1, s!"del {sstatus d1 "del" t}" ++ sflag d1)
+  | ["get"] => (d, if d.s.val == 0 then "get v=absent" else s!"get v={d.s.val}")
+  | ["spawn", n, kind, v] =>
+    match tidOf n, v.toInt? with
+    | some t, some a =>
+      if (kind != "seta" && kind != "setx") || d.sops.any (fun e => e.1 == t) then (d, "bad-op") else
+      let d0 := { d with sops := d.sops ++ [(t, kind, a)] }
+      -- the unguarded tests: an outcome that needs no write is answered right away
+      let early := (kind == "seta" && d.s.val != 0) || (kind == "setx" && d.s.val == 0)
+      if early then
+        let d1 := srun 8 d0 t
+        (d1, s!"{n} done {sstatus d1 kind t}" ++ sflag d1)
+      else
+        -- otherwise the call parks after the tests; with the defective shape its decision is already taken
+        let d1 := if d.setUnderGuard then d0 else srun 1 d0 t
+        ({ d1 with sparked := d1.sparked ++ [(n, t)] }, s!"{n}@tested")
+    | _, _ => (d, "bad-op")
+  | _ => (d, "bad-op")
+
 def step (d : DSt) (line : String) : DSt × String :=
   match words line with
   | ["case", _, mode, kind] =>
-    ({ d with mode := mode, kind := kind, s := Hv.Lin.init 5, ths := [], deleted := false, resurrected := false,
-              cleared := false, fresh := false }, line)
+    ({ d with mode := mode, kind := kind, s := Hv.Lin.init (if mode == "setx" then 0 else 5), ths := [], deleted := false,
+              resurrected := false, cleared := false, fresh := false, sops := [], sparked := [], snext := 10 }, line)
   | ws =>
+    if d.mode == "setx" then sstep d ws else
     if d.mode == "sched" then
       match ws with
       | ["step", n] => stepThread d n false
@@ -179,7 +258,8 @@ def run (args : List String) : IO UInt32 := do
   let kv := parseArgs args
   lineLoop step { resets := arg kv "resetsIdOnEmpty" == "yes", relWhenImm := arg kv "releasesGuardWhenImmediate" != "no",
                   mode := "", kind := "", s := Hv.Lin.init 5, ths := [], deleted := false, resurrected := false,
-                  cleared := false, recheck := arg kv "rechecksObjectUnderGuard" == "yes", fresh := false }
+                  cleared := false, recheck := arg kv "rechecksObjectUnderGuard" == "yes", fresh := false,
+                  setUnderGuard := arg kv "setTestsExistenceUnderGuard" != "no" }
   return 0
 
 end Driver.C09
